@@ -113,8 +113,13 @@ def cloLoop (w : Nat) : Nat → Nat → Nat → Except Err Nat
 def countlOne (w x : Nat) : Except Err Nat :=
   if x == 2 ^ w - 1 then .ok w else cloLoop w w x 0
 
-/-- the check of `TETL_PRECONDITION(static_cast<int>(pos) < digits)` as written -/
-def bitPosPre (w pos : Nat) : Bool := decide (i32.conv pos < w)
+/-- the check of `TETL_PRECONDITION(pos < static_cast<UInt>(numeric_limits<UInt>::digits))` as written
+    (test_bit.hpp, set_bit.hpp, reset_bit.hpp, flip_bit.hpp): `digits` (an `int`, the width `w`) is
+    converted to `UInt`, i.e. reduced modulo `2^w` (it is `w` itself because `w < 2^w`:
+    `TetlProofs.C14.Lemmas.digits_as_uint`); both operands then have type `UInt`, so the (promoted)
+    comparison is the comparison of the two values.  In particular a position `pos ≥ 2^31` of a
+    32/64-bit type fails the check (it does not wrap to a negative `int`). -/
+def bitPosPre (w pos : Nat) : Bool := decide (pos < w % 2 ^ w)
 
 /-- `UInt(UInt(1) << pos)` with its undefined-behaviour condition -/
 def oneShl (w pos : Nat) : Except Err Nat :=
@@ -332,6 +337,23 @@ def midpoint (t : ITy) (a b : Int) : Except Err Int :=
       let r ← arith t.promote (a + t.conv half)
       .ok (t.conv r)
 
+/-- `ptrdiff_t` on the modelled platform (x86-64 / LP64) -/
+def ptrdiffT : ITy := ⟨64, true⟩
+
+/-- `midpoint(Ptr a, Ptr b)`: `a + etl::midpoint(etl::ptrdiff_t(0), b - a)`.  A pointer into an array
+    of `len` elements is its index `0 … len` (one past the end included).  [expr.add]: `b - a` and
+    `a + n` are defined only inside one array — pointers into different arrays are the documented
+    precondition ([numeric.ops.midpoint]: "a and b point to elements of the same array"), a result
+    outside `0 … len` is undefined behaviour; `b - a` is a `ptrdiff_t`. -/
+def midpointPtr (len ia ib : Int) : Except Err Int :=
+  if !(decide (0 ≤ ia) && decide (ia ≤ len) && decide (0 ≤ ib) && decide (ib ≤ len)) then
+    .error (.pre "midpoint: pointers into the same array")
+  else do
+    let d ← arith ptrdiffT (ib - ia)          -- `b - a`
+    let h ← midpoint ptrdiffT 0 d             -- `etl::midpoint(etl::ptrdiff_t(0), b - a)`
+    let r := ia + h                           -- `a + …`
+    if decide (0 ≤ r) && decide (r ≤ len) then .ok r else ub "pointer arithmetic"
+
 /-- `detail::gcd_abs<U>(x)`: `|x|` as a value of the unsigned common type `U`, without overflow:
     `x < 0 ? U(U(0) - U(x)) : U(x)` -/
 def absAs (U : ITy) (x : Int) : Nat :=
@@ -401,7 +423,10 @@ def ipow2 (t : ITy) (exponent : Int) : Except Err Int :=
   if exponent < 0 || exponent ≥ P.w then ub "shift count"
   else .ok (t.conv (P.conv (2 ^ exponent.toNat)))
 
-/-- `ilog2(x)`: `for (; x > 1; x >>= 1) ++result;` on the non-negative part of the domain -/
+/-- `ilog2(x)`: `for (; x > Int(1); x >>= Int(1)) ++result;`.  The comparison is a signed one for a
+    signed `Int` (after promotion: still the comparison of the values), so for every `x ≤ 1` — zero and
+    all negative values included — the body never runs; for `x > 1` the right shift of a positive
+    value is the division by 2 and the loop state stays positive: the loop is written on `Nat`. -/
 def ilog2Loop (x r : Nat) : Nat :=
   if _h : x > 1 then ilog2Loop (x / 2) (r + 1) else r
 termination_by x
